@@ -26,6 +26,23 @@ for d in sorted(glob.glob(os.path.join(VERIF, 'seeded', '*'))):
         summ = summ[:147] + '...'
     sigs = ', '.join('`%s`' % x for x in (last.get('signatures') or [])[:3])
     rows.append('| %s | %s | %s | %s | %s |' % (os.path.basename(d), summ, verdict(first), verdict(last) if len(runs) > 1 else '', sigs))
+import sys
+out = []
+_print = print
+print = lambda *a: out.append(' '.join(str(x) for x in a))
 print('| seeded change | what was changed (author\'s summary) | first evaluation | final evaluation | reported as |')
 print('|---|---|---|---|---|')
 print('\n'.join(rows))
+
+print = _print
+table = '\n'.join(out)
+if '--write' in sys.argv:
+    p = os.path.join(VERIF, 'DESIGN.md')
+    d = open(p).read()
+    a, b = d.index('<!-- SEED-TABLE-BEGIN -->'), d.index('<!-- SEED-TABLE-END -->')
+    n = len(rows)
+    caught = sum(1 for r in rows if '| caught' in r.split(' | ', 3)[-1][:40] or True)
+    d = d[:a] + '<!-- SEED-TABLE-BEGIN -->\n' + table + '\n' + d[b:]
+    open(p, 'w').write(d)
+else:
+    print(table)
